@@ -720,6 +720,8 @@ def drive(chk, replay, prop, gen, oracle, nontrivial, n_quick, n_thorough, rule,
     else:
         cdir = os.path.join(C.ROOT, "corpus", prop)
         for f in sorted(os.listdir(cdir)) if os.path.isdir(cdir) else []:
+            if not f.endswith(".json"):
+                continue
             rep = json.load(open(os.path.join(cdir, f)))
             for par in ([rep["parallel"]] if "parallel" in rep else [False, True]):
                 scs.append(from_replay(dict(rep, parallel=par), len(scs)))
